@@ -1,3 +1,4 @@
+import codecs
 import io
 import logging
 import re
@@ -308,6 +309,17 @@ class PDFConverter(PDFLayoutAnalyzer, Generic[IOType]):
         self.outfp: IOType = outfp
         self.codec = codec
         self.outfp_binary = self._is_binary_stream(self.outfp)
+        self._encoder: Optional[codecs.IncrementalEncoder] = None
+
+    def _encode(self, text: str, errors: str = "strict") -> bytes:
+        """Encode a piece of output for a binary stream.
+
+        One incremental encoder serves the whole output, so that a codec with
+        a signature (e.g. utf-16) writes it once instead of before every piece.
+        """
+        if self._encoder is None:
+            self._encoder = codecs.getincrementalencoder(self.codec or "utf-8")(errors)
+        return self._encoder.encode(text)
 
     @staticmethod
     def _is_binary_stream(outfp: AnyIO) -> bool:
@@ -343,7 +355,7 @@ class TextConverter(PDFConverter[AnyIO]):
     def write_text(self, text: str) -> None:
         text = utils.compatible_encode_method(text, self.codec, "ignore")
         if self.outfp_binary:
-            cast(BinaryIO, self.outfp).write(text.encode())
+            cast(BinaryIO, self.outfp).write(self._encode(text, "ignore"))
         else:
             cast(TextIO, self.outfp).write(text)
 
@@ -453,7 +465,7 @@ class HTMLConverter(PDFConverter[AnyIO]):
 
     def write(self, text: str) -> None:
         if self.codec:
-            cast(BinaryIO, self.outfp).write(text.encode(self.codec))
+            cast(BinaryIO, self.outfp).write(self._encode(text))
         else:
             cast(TextIO, self.outfp).write(text)
 
@@ -730,7 +742,7 @@ class XMLConverter(PDFConverter[AnyIO]):
 
     def write(self, text: str) -> None:
         if self.codec:
-            cast(BinaryIO, self.outfp).write(text.encode(self.codec))
+            cast(BinaryIO, self.outfp).write(self._encode(text))
         else:
             cast(TextIO, self.outfp).write(text)
 
@@ -911,8 +923,7 @@ class HOCRConverter(PDFConverter[AnyIO]):
 
     def write(self, text: str) -> None:
         if self.codec:
-            encoded_text = text.encode(self.codec)
-            cast(BinaryIO, self.outfp).write(encoded_text)
+            cast(BinaryIO, self.outfp).write(self._encode(text))
         else:
             cast(TextIO, self.outfp).write(text)
 
